@@ -288,7 +288,10 @@ func rulesC20(r *Run) {
 	rulePlanReturnsStored(r, "R1")
 	ruleBuilderErrorsSticky(r, "R1", "Plan", false)
 	ruleBuilderErrorsSticky(r, "R1", "Reset", true)
-	r.Expect("R1", 13)
+	for _, m := range []string{"Up", "AddChecks", "AddBlock", "AddSequence", "AddAction"} {
+		ruleBuilderNoSilentOutcome(r, "R1", m)
+	}
+	r.Expect("R1", 23)
 
 	r.Kind("R2", "K10")
 	for _, m := range []string{"AddChecks", "AddSequence", "AddAction"} {
@@ -1398,4 +1401,93 @@ func ruleWalkSkipsNilChildren(r *Run, rule string) {
 	if n == 0 {
 		r.Unresolved(rule, "loops over child slices in package walk")
 	}
+}
+
+// ruleBuilderNoSilentOutcome (second mutation sweep): a builder call has exactly three outcomes — it is refused by the prologue
+// (the plan was emitted, or an error is stored), it reports a misuse through setErr and does nothing else, or it takes
+// effect. Per returning path of Up, AddChecks, AddBlock, AddSequence, AddAction, with the inlined setErr left out:
+// a path that is possible on a fresh builder (assume ¬emitted ∧ no error stored) and changes nothing outside its locals
+// has called setErr — otherwise the call is silently dropped; and a path that has called setErr changes nothing after
+// it — otherwise a refused object is attached all the same (deleting the `return b` behind a setErr passed the tests).
+func ruleBuilderNoSilentOutcome(r *Run, rule, m string) {
+	fn := r.fnByKey(rule, bKey(m))
+	if fn == nil {
+		return
+	}
+	fl, paths, ok := r.flowPaths(rule, fn)
+	if !ok {
+		return
+	}
+	paths = OwnOnly(paths)
+	info := fl.Info
+	atom := func(e ast.Expr) (string, bool, bool) {
+		if isBuilderField(info, e, "emitted") {
+			return "emitted", false, true
+		}
+		if x, op, ok := IsNilCompare(info, e); ok && isBuilderField(info, x, "err") {
+			return "err-stored", op == token.EQL, true
+		}
+		return "", false, false
+	}
+	isLocal := func(e ast.Expr) bool {
+		id, ok := ast.Unparen(e).(*ast.Ident)
+		if !ok {
+			return false
+		}
+		if id.Name == "_" {
+			return true
+		}
+		o := info.ObjectOf(id)
+		if o == nil {
+			return true
+		}
+		v, ok := o.(*types.Var)
+		return ok && !v.IsField() && v.Pkg() != nil && v.Parent() != v.Pkg().Scope()
+	}
+	badSilent, badAfter := "", ""
+	var pS, pA token.Pos = fn.Decl.Pos(), fn.Decl.Pos()
+	n := 0
+	for i := range paths {
+		p := &paths[i]
+		if p.Exit != ExitReturn {
+			continue
+		}
+		setErrAt := -1
+		effectBefore, effectAfter := false, false
+		var effectPos token.Pos
+		for j, e := range p.Ev {
+			if e.Kind == EvCall && CalleeKey(e) == bKey("setErr") && setErrAt < 0 {
+				setErrAt = j
+			}
+			if e.Kind == EvAssign {
+				for _, l := range e.Lhs {
+					if !isLocal(l) {
+						if setErrAt >= 0 {
+							effectAfter, effectPos = true, e.Pos
+						} else {
+							effectBefore = true
+						}
+					}
+				}
+			}
+		}
+		n++
+		if setErrAt >= 0 && effectAfter && badAfter == "" {
+			badAfter, pA = m+"() goes on after it reported a misuse through setErr and changes the builder or the plan (exit guard "+ExitGuardKey(fl, p)+"): the refused object is attached all the same", effectPos
+		}
+		if setErrAt < 0 && !effectBefore && !PathRefuted(fl, p, -1, map[string]bool{"emitted": false, "err-stored": false}, atom) && badSilent == "" {
+			badSilent = m + "() has a path that is possible on a fresh builder, changes nothing and reports nothing (exit guard " + ExitGuardKey(fl, p) + "): the call is silently dropped"
+			for _, e := range p.Ev {
+				if e.Kind == EvReturn && !e.Deferred {
+					pS = e.Pos
+				}
+			}
+		}
+	}
+	if n == 0 {
+		r.Unresolved(rule, m+"() returning path")
+		return
+	}
+	r.Check(rule, "no-silent-drop:"+m, pS, badSilent == "", "%s", orOK(badSilent, "every path that is possible on a fresh builder takes effect or reports through setErr"))
+	r.Check(rule, "nothing-after-setErr:"+m, pA, badAfter == "", "%s", orOK(badAfter, "a reported misuse ends the call"))
 }
